@@ -277,95 +277,267 @@ Lemma dial_unsupported cfg lport : dial_model cfg LOther lport = DUnsupported.
 Proof. reflexivity. Qed.
 
 (* ------------------------------------------------------------------ *)
-(* (b) http relay                                                      *)
+(* the concrete framing is self-delimiting for length-framed messages   *)
 
-(* a message is self-delimiting for the framing: it parses as exactly itself and no
-   proper prefix of it is complete (or rejected) *)
+Lemma is_prefix_length p l : is_prefix p l = true -> (length p <= length l)%nat.
+Proof.
+  revert l; induction p as [|x p IH]; intros l H; cbn [length]; [lia|].
+  destruct l as [|y l]; cbn [is_prefix] in H; [discriminate|].
+  apply andb_true_iff in H as [_ H]. specialize (IH _ H). cbn [length]. lia.
+Qed.
+
+Lemma is_prefix_firstn p k l : is_prefix p (firstn k l) = true -> is_prefix p l = true.
+Proof.
+  revert k l; induction p as [|x p IH]; intros k l H; [reflexivity|].
+  destruct k as [|k]; [cbn in H; discriminate|]. destruct l as [|y l]; [cbn in H; discriminate|].
+  cbn [firstn is_prefix] in *. apply andb_true_iff in H as [H1 H2]. rewrite H1, (IH _ _ H2). reflexivity.
+Qed.
+
+Lemma is_prefix_firstn_ge p k l : is_prefix p l = true -> (length p <= k)%nat -> is_prefix p (firstn k l) = true.
+Proof.
+  revert k l; induction p as [|x p IH]; intros k l H Hk; [reflexivity|].
+  destruct l as [|y l]; [cbn in H; discriminate|]. destruct k as [|k]; [cbn [length] in Hk; lia|].
+  cbn [firstn is_prefix] in *. apply andb_true_iff in H as [H1 H2]. rewrite H1. cbn [andb].
+  apply IH; [exact H2|cbn [length] in Hk; lia].
+Qed.
+
+Lemma find_crlf2_short l : (length l < 4)%nat -> find_crlf2 l = None.
+Proof.
+  induction l as [|x l IH]; intros H; [reflexivity|]. cbn [find_crlf2].
+  destruct (is_prefix CRLF2 (x :: l)) eqn:E.
+  - apply is_prefix_length in E. cbn [CRLF2 length] in *. lia.
+  - rewrite IH; [reflexivity|cbn [length] in H; lia].
+Qed.
+
+Lemma find_crlf2_firstn_lt l : forall i k, find_crlf2 l = Some i -> (k < i + 4)%nat -> find_crlf2 (firstn k l) = None.
+Proof.
+  induction l as [|x l IH]; intros i k H Hk; [discriminate|].
+  destruct k as [|k]; [reflexivity|]. cbn [firstn]. cbn [find_crlf2] in H.
+  destruct (is_prefix CRLF2 (x :: l)) eqn:E.
+  - inversion H; subst i. apply find_crlf2_short.
+    change (x :: firstn k l) with (firstn (S k) (x :: l)). rewrite firstn_length. lia.
+  - destruct (find_crlf2 l) as [i'|] eqn:F; [|discriminate]. inversion H; subst i.
+    cbn [find_crlf2].
+    destruct (is_prefix CRLF2 (x :: firstn k l)) eqn:E2.
+    + change (x :: firstn k l) with (firstn (S k) (x :: l)) in E2. apply is_prefix_firstn in E2. congruence.
+    + rewrite (IH i' k eq_refl) by lia. reflexivity.
+Qed.
+
+Lemma find_crlf2_firstn_ge l : forall i k, find_crlf2 l = Some i -> (i + 4 <= k)%nat -> find_crlf2 (firstn k l) = Some i.
+Proof.
+  induction l as [|x l IH]; intros i k H Hk; [discriminate|].
+  destruct k as [|k]; [lia|]. cbn [firstn]. cbn [find_crlf2] in H. cbn [find_crlf2].
+  destruct (is_prefix CRLF2 (x :: l)) eqn:E.
+  - inversion H; subst i.
+    change (x :: firstn k l) with (firstn (S k) (x :: l)).
+    rewrite (is_prefix_firstn_ge _ _ _ E) by (cbn [CRLF2 length]; lia). reflexivity.
+  - destruct (find_crlf2 l) as [i'|] eqn:F; [|discriminate]. inversion H; subst i.
+    destruct (is_prefix CRLF2 (x :: firstn k l)) eqn:E2.
+    + change (x :: firstn k l) with (firstn (S k) (x :: l)) in E2. apply is_prefix_firstn in E2. congruence.
+    + rewrite (IH i' k eq_refl) by lia. reflexivity.
+Qed.
+
+Lemma find_crlf2_bound l i : find_crlf2 l = Some i -> (i + 4 <= length l)%nat.
+Proof.
+  revert i; induction l as [|x l IH]; intros i H; [discriminate|]. cbn [find_crlf2] in H.
+  destruct (is_prefix CRLF2 (x :: l)) eqn:E.
+  - inversion H; subst. apply is_prefix_length in E. cbn [CRLF2 length] in *. lia.
+  - destruct (find_crlf2 l) as [i'|]; [|discriminate]. inversion H; subst. specialize (IH _ eq_refl). cbn [length]. lia.
+Qed.
+
+Lemma firstn_firstn_le {A} (l : list A) i k : (i <= k)%nat -> firstn i (firstn k l) = firstn i l.
+Proof. intros H. rewrite firstn_firstn. f_equal. lia. Qed.
+
+Lemma skipn_firstn_length {A} (l : list A) a k : (k <= length l)%nat ->
+  length (skipn a (firstn k l)) = (k - a)%nat.
+Proof. intros H. rewrite skipn_length, firstn_length. lia. Qed.
+
+Lemma is_prefix_app p l x : is_prefix p l = true -> is_prefix p (l ++ x) = true.
+Proof.
+  revert l; induction p as [|a p IH]; intros l H; [reflexivity|].
+  destruct l as [|b l]; [cbn in H; discriminate|]. cbn [app is_prefix] in *.
+  apply andb_true_iff in H as [H1 H2]. rewrite H1, (IH _ H2). reflexivity.
+Qed.
+
+Lemma find_crlf2_app l x : forall i, find_crlf2 l = Some i -> find_crlf2 (l ++ x) = Some i.
+Proof.
+  induction l as [|a l IH]; intros i H; [discriminate|]. cbn [find_crlf2] in H.
+  change ((a :: l) ++ x) with (a :: (l ++ x)). cbn [find_crlf2].
+  destruct (is_prefix CRLF2 (a :: l)) eqn:E.
+  - change (a :: l ++ x) with ((a :: l) ++ x). rewrite (is_prefix_app _ _ x E). exact H.
+  - destruct (find_crlf2 l) as [i'|] eqn:F; [|discriminate]. inversion H; subst i.
+    rewrite (IH i' eq_refl).
+    destruct (is_prefix CRLF2 (a :: l ++ x)) eqn:E2; [|reflexivity].
+    exfalso. (* a match at position 0 of the extension lies within the first i'+1+4 bytes of l *)
+    pose proof (find_crlf2_bound _ _ F) as Hb.
+    assert (E3 : is_prefix CRLF2 (firstn 4 ((a :: l) ++ x)) = true)
+      by (apply is_prefix_firstn_ge; [exact E2|cbn [CRLF2 length]; lia]).
+    rewrite firstn_app in E3. replace (4 - length (a :: l))%nat with 0%nat in E3 by (cbn [length]; lia).
+    rewrite firstn_O, app_nil_r in E3. apply is_prefix_firstn in E3. congruence.
+Qed.
+
+Lemma split_line_app l : forall a b x, split_line l = Some (a, b) -> split_line (l ++ x) = Some (a, b ++ x).
+Proof.
+  induction l as [|c l IH]; intros a b x H; [discriminate|].
+  destruct l as [|d l']; [cbn in H; discriminate|].
+  change ((c :: d :: l') ++ x) with (c :: d :: (l' ++ x)).
+  cbn [split_line] in H |- *.
+  destruct ((c =? 13) && (d =? 10))%N.
+  - inversion H; subst. reflexivity.
+  - destruct (match l' with [] => None | y :: r' => _ end) as [[a' b']|] eqn:S; [|discriminate].
+    inversion H; subst a b. 
+    pose proof (IH a' b' x) as IH'. cbn [split_line app] in IH'. rewrite (IH' S). reflexivity.
+Qed.
+
+Lemma dechunk_app f : forall l used body u b x f',
+  dechunk f l used body = CkDone u b -> (f <= f')%nat -> dechunk f' (l ++ x) used body = CkDone u b.
+Proof.
+  induction f as [|f IH]; intros l used body u b x f' H Hf; [discriminate|].
+  destruct f' as [|f']; [lia|]. cbn [dechunk] in H |- *.
+  destruct (split_line l) as [[line after]|] eqn:S; [|discriminate].
+  rewrite (split_line_app _ _ _ x S).
+  destruct (parse_hex line) as [n|]; [|discriminate].
+  destruct (n =? 0)%N.
+  - destruct after as [|a1 [|a2 after']]; [discriminate| |].
+    + destruct (a1 =? 13)%N; discriminate.
+    + cbn [app]. exact H.
+  - destruct (length after <? N.to_nat n + 2)%nat eqn:EL; [discriminate|].
+    apply Nat.ltb_ge in EL.
+    destruct (is_prefix [13; 10]%N (skipn (N.to_nat n) after)) eqn:EP; [|discriminate].
+    assert (E1 : (length (after ++ x) <? N.to_nat n + 2)%nat = false)
+      by (apply Nat.ltb_ge; rewrite app_length; lia).
+    rewrite E1.
+    rewrite !skipn_app, firstn_app.
+    replace (N.to_nat n - length after)%nat with 0%nat by lia.
+    replace (N.to_nat n + 2 - length after)%nat with 0%nat by lia.
+    cbn [skipn firstn]. rewrite app_nil_r, (is_prefix_app _ _ x EP).
+    apply IH; [exact H|lia].
+Qed.
+
+(* whatever follows a complete request in the buffer does not change how it is framed *)
+Lemma frame_req_extend msg m x :
+  frame_req msg = QComplete (length msg) m -> frame_req (msg ++ x) = QComplete (length msg) m.
+Proof.
+  intros H. unfold frame_req in H |- *.
+  destruct (find_crlf2 msg) as [i|] eqn:F; [|discriminate].
+  pose proof (find_crlf2_bound _ _ F) as Hb.
+  rewrite (find_crlf2_app _ x _ F).
+  rewrite firstn_app. replace (i - length msg)%nat with 0%nat by lia. cbn [firstn]. rewrite app_nil_r.
+  destruct (split_crlf (firstn i msg)) as [|l0 ls]; [discriminate|].
+  destruct (parse_reqline l0) as [[mt tg]|]; [|discriminate].
+  destruct (parse_headers ls) as [hs|]; [|discriminate].
+  rewrite skipn_app. replace (i + 4 - length msg)%nat with 0%nat by lia. cbn [skipn].
+  destruct (body_kind_of hs (BKLen 0)) as [|n|]; [discriminate| |].
+  - destruct (N.to_nat n <=? length (skipn (i + 4) msg))%nat eqn:E; [|discriminate].
+    inversion H as [[Hn Hm]]. apply Nat.leb_le in E.
+    rewrite app_length.
+    destruct (N.to_nat n <=? length (skipn (i + 4) msg) + length x)%nat eqn:E2.
+    + rewrite firstn_app. replace (N.to_nat n - length (skipn (i + 4) msg))%nat with 0%nat by lia.
+      cbn [firstn]. rewrite app_nil_r. reflexivity.
+    + apply Nat.leb_gt in E2. lia.
+  - destruct (dechunk (S (length (skipn (i + 4) msg))) (skipn (i + 4) msg) 0 []) as [| |used body] eqn:D; try discriminate.
+    rewrite (dechunk_app _ _ _ _ _ _ x (S (length (skipn (i + 4) msg ++ x))) D) by (rewrite app_length; lia).
+    exact H.
+Qed.
+
+
+(* ------------------------------------------------------------------ *)
+(* self-delimiting messages                                            *)
+
+(* a request is self-delimiting for the framing: followed by anything it is framed as
+   exactly itself, and no proper prefix of it is complete (or rejected) *)
 Definition sd_req (msg : bytes) (m : sem_req) : Prop :=
-  frame_req msg = QComplete (length msg) m /\
+  (forall x, frame_req (msg ++ x) = QComplete (length msg) m) /\
   forall k, (k < length msg)%nat -> frame_req (firstn k msg) = QIncomplete.
 
+(* a reply: it parses as exactly itself and no proper prefix is complete (the backend
+   writes a reply only after it has the request, so nothing follows it in the buffer) *)
 Definition sd_resp (to_head : bool) (raw : bytes) (p : sem_resp) : Prop :=
   frame_resp to_head raw = PComplete (length raw) p /\
   forall k, (k < length raw)%nat -> frame_resp to_head (firstn k raw) = PIncomplete.
 
-Definition set_buf (s : st) (b : bytes) : st :=
-  mkSt b (s_replies s) (s_recvd s) (s_broken s) (s_fwd s) (s_del s) (s_written s).
-
-Definition on_complete (m : sem_req) (r : list citem) (s : st) : st * endk :=
-  let fwd := reser_req m :: s_fwd s in
-  let reply := match s_replies s with [] => DEFAULT_REPLY | x :: _ => x end in
-  let rest := tl (s_replies s) in
-  match read_reply (is_head m) [] reply with
-  | RBad => (mkSt [] rest (s_recvd s) (s_broken s) fwd (s_del s) (s_written s), EBadReply)
-  | RStall => (mkSt [] rest (s_recvd s) (s_broken s) fwd (s_del s) (s_written s), EStall)
-  | RGot p =>
-      let p' := reser_resp p in
-      if s_broken s
-      then run r (mkSt [] rest (s_recvd s) true fwd (s_del s) (s_written s + 1)%N)
-      else run r (mkSt [] rest (s_recvd s + 1)%N (stray_after (is_head m) p) fwd (p' :: s_del s) (s_written s + 1)%N)
-  end.
-
-Lemma run_seg b r s :
-  run (ISeg b :: r) s =
-  match frame_req (s_buf s ++ b) with
-  | QIncomplete => run r (set_buf s (s_buf s ++ b))
-  | QBad => (s, EBadRequest)
-  | QComplete _ m => on_complete m r s
-  end.
-Proof. reflexivity. Qed.
-
-Lemma run_wait k r s :
-  run (IWait k :: r) s = if (k <=? s_recvd s)%N then run r s else (s, EGaveUp).
-Proof. reflexivity. Qed.
-
-Lemma on_complete_buf m r s b : on_complete m r (set_buf s b) = on_complete m r s.
-Proof. reflexivity. Qed.
-
 Lemma frame_req_nil : frame_req [] = QIncomplete.
 Proof. reflexivity. Qed.
 
-Lemma sd_req_nonempty msg m : sd_req msg m -> msg <> [].
-Proof. intros [H _] ->. rewrite frame_req_nil in H. discriminate. Qed.
+Lemma sd_req_alone msg m : sd_req msg m -> frame_req msg = QComplete (length msg) m.
+Proof. intros [H _]. specialize (H []). rewrite app_nil_r in H. exact H. Qed.
 
-(* the client leg: however the message is cut into (non-empty) writes, the proxy's reader
-   ends up with exactly the message *)
-Lemma client_leg msg m : sd_req msg m ->
-  forall segs s rest,
-    Forall (fun x => x <> []) segs ->
-    s_buf s ++ concat segs = msg -> (length (s_buf s) < length msg)%nat ->
-    run (map ISeg segs ++ rest) s = on_complete m rest s.
+Lemma sd_req_nonempty msg m : sd_req msg m -> msg <> [].
+Proof. intros H E. apply sd_req_alone in H. subst msg. rewrite frame_req_nil in H. discriminate. Qed.
+
+(* a length-framed request that parses as exactly itself is self-delimiting *)
+Lemma frame_req_sd msg m :
+  frame_req msg = QComplete (length msg) m -> r_chunked m = false -> sd_req msg m.
 Proof.
-  intros [Hc Hp]. induction segs as [|x segs IH]; intros s rest Hne Hcat Hlen.
-  - exfalso. cbn [concat] in Hcat. rewrite app_nil_r in Hcat. subst msg. lia.
-  - pose proof (Forall_inv Hne) as Hx. pose proof (Forall_inv_tail Hne) as Hne'. cbn [map app]. rewrite run_seg.
-    destruct segs as [|y r].
-    + cbn [concat] in Hcat. rewrite app_nil_r in Hcat. rewrite Hcat, Hc. reflexivity.
-    + assert (Hlt : (length (s_buf s ++ x) < length msg)%nat).
-      { rewrite <- Hcat. cbn [concat]. rewrite !app_length.
-        pose proof (Forall_inv Hne') as Hy. destruct y; [congruence|]. cbn [length]. lia. }
-      assert (Hpre : firstn (length (s_buf s ++ x)) msg = s_buf s ++ x).
-      { rewrite <- Hcat. cbn [concat]. rewrite app_assoc.
-        rewrite firstn_app, firstn_all, Nat.sub_diag. cbn [firstn]. apply app_nil_r. }
-      rewrite <- Hpre, (Hp _ Hlt), Hpre.
-      rewrite (IH (set_buf s (s_buf s ++ x)) rest Hne').
-      * apply on_complete_buf.
-      * cbn [set_buf s_buf]. rewrite <- Hcat. cbn [concat]. rewrite <- app_assoc. reflexivity.
-      * cbn [set_buf s_buf]. exact Hlt.
+  intros H Hc. split; [intros x; apply frame_req_extend, H|]. intros k Hk.
+  unfold frame_req in H |- *.
+  destruct (find_crlf2 msg) as [i|] eqn:F; [|discriminate].
+  pose proof (find_crlf2_bound _ _ F) as Hb.
+  destruct (Nat.lt_ge_cases k (i + 4)) as [Hlt|Hge].
+  - rewrite (find_crlf2_firstn_lt _ _ _ F Hlt). reflexivity.
+  - rewrite (find_crlf2_firstn_ge _ _ _ F Hge).
+    rewrite (firstn_firstn_le msg i k) by lia.
+    destruct (split_crlf (firstn i msg)) as [|l0 ls]; [discriminate|].
+    destruct (parse_reqline l0) as [[mt tg]|]; [|discriminate].
+    destruct (parse_headers ls) as [hs|]; [|discriminate].
+    destruct (body_kind_of hs (BKLen 0)) as [|n|]; [discriminate| |].
+    + destruct (N.to_nat n <=? length (skipn (i + 4) msg))%nat eqn:E; [|discriminate].
+      inversion H as [[Hn Hm]]. rewrite skipn_firstn_length by lia.
+      destruct (N.to_nat n <=? k - (i + 4))%nat eqn:E2; [|reflexivity].
+      apply Nat.leb_le in E2. lia.
+    + destruct (dechunk _ _ _ _); try discriminate. inversion H as [[Hn Hm]]. subst m. cbn in Hc. discriminate.
 Qed.
 
-(* the backend leg: however the reply is cut, the proxy's second reader reads exactly it *)
+
+(* ------------------------------------------------------------------ *)
+(* (b) http relay: one reader per leg                                   *)
+
+Lemma drain_step f s n m p l rest :
+  frame_req (s_buf s) = QComplete n m ->
+  read_reply (is_head m) (s_bbuf s) (s_bq s ++ match s_replies s with [] => DEFAULT_REPLY | x :: _ => x end) = RGot p l rest ->
+  drain (S f) s = drain f (mkSt (skipn n (s_buf s)) l rest (tl (s_replies s)) (s_recvd s + 1)%N
+                                (reser_req m :: s_fwd s) (reser_resp p :: s_del s)).
+Proof. intros H1 H2. cbn [drain]. rewrite H1. cbn [s_bbuf s_bq s_buf s_replies s_recvd s_fwd s_del]. rewrite H2. reflexivity. Qed.
+
+Lemma drain_incomplete f s : frame_req (s_buf s) = QIncomplete -> drain (S f) s = (s, None).
+Proof. intros H. cbn [drain]. rewrite H. reflexivity. Qed.
+
+(* the fuel used by [run] suffices: every complete request takes at least one byte *)
+Lemma frame_req_complete_pos buf n m : frame_req buf = QComplete n m -> (0 < n)%nat.
+Proof.
+  unfold frame_req. destruct (find_crlf2 buf) as [i|]; [|discriminate].
+  destruct (split_crlf (firstn i buf)) as [|l0 ls]; [discriminate|].
+  destruct (parse_reqline l0) as [[mt tg]|]; [|discriminate].
+  destruct (parse_headers ls) as [hs|]; [|discriminate].
+  destruct (body_kind_of hs (BKLen 0)) as [|c|]; [discriminate| |].
+  - destruct (N.to_nat c <=? _)%nat; [|discriminate]. intros H; inversion H; lia.
+  - destruct (dechunk _ _ _ _); try discriminate. intros H; inversion H; lia.
+Qed.
+
+Lemma drain_fuel_suffices fuel : forall s, (length (s_buf s) < fuel)%nat -> snd (drain fuel s) <> Some EFuel.
+Proof.
+  induction fuel as [|f IH]; intros s Hl; [lia|]. cbn [drain].
+  destruct (frame_req (s_buf s)) as [| |n m] eqn:F; cbn [snd]; try discriminate.
+  destruct (read_reply _ _ _); cbn [snd]; try discriminate.
+  apply IH. cbn [s_buf]. pose proof (frame_req_complete_pos _ _ _ F).
+  destruct (s_buf s) as [|x b] eqn:E; [rewrite frame_req_nil in F; discriminate|].
+  rewrite skipn_length. cbn [length] in *. lia.
+Qed.
+
+(* the backend leg: however the reply is cut, ReadResponse reads exactly it and leaves
+   nothing behind *)
 Lemma backend_leg h raw p : sd_resp h raw p ->
-  forall rsegs buf, buf ++ concat rsegs = raw -> read_reply h buf rsegs = RGot p.
+  forall rsegs buf, buf ++ concat rsegs = raw ->
+  exists rest, read_reply h buf rsegs = RGot p [] rest /\ concat rest = [].
 Proof.
   intros [Hc Hp]. induction rsegs as [|x r IH]; intros buf Hcat.
-  - cbn [concat] in Hcat. rewrite app_nil_r in Hcat. subst buf. cbn [read_reply]. rewrite Hc. reflexivity.
+  - cbn [concat] in Hcat. rewrite app_nil_r in Hcat. subst buf. cbn [read_reply]. rewrite Hc.
+    exists []. rewrite skipn_all. split; reflexivity.
   - cbn [read_reply]. destruct (Nat.eq_dec (length buf) (length raw)) as [E|E].
-    + assert (buf = raw).
-      { assert (length raw = (length buf + length (concat (x :: r)))%nat) by (rewrite <- Hcat, app_length; reflexivity).
-        assert (L : length (concat (x :: r)) = 0%nat) by lia.
-        apply length_zero_iff_nil in L. rewrite L, app_nil_r in Hcat. exact Hcat. }
-      subst buf. rewrite Hc. reflexivity.
+    + assert (length raw = (length buf + length (concat (x :: r)))%nat) by (rewrite <- Hcat, app_length; reflexivity).
+      assert (L : length (concat (x :: r)) = 0%nat) by lia.
+      apply length_zero_iff_nil in L. rewrite L, app_nil_r in Hcat. subst buf. rewrite Hc.
+      exists (x :: r). rewrite skipn_all. split; [reflexivity|exact L].
     + assert (Hlt : (length buf < length raw)%nat).
       { assert (length raw = (length buf + length (concat (x :: r)))%nat) by (rewrite <- Hcat, app_length; reflexivity). lia. }
       assert (Hpre : firstn (length buf) raw = buf).
@@ -374,73 +546,239 @@ Proof.
       rewrite <- Hcat. cbn [concat]. rewrite <- app_assoc. reflexivity.
 Qed.
 
-Lemma waits_skip ws : forall rest s,
-  Forall (fun k => (k <= s_recvd s)%N) ws -> run (map IWait ws ++ rest) s = run rest s.
-Proof.
-  induction ws as [|k ws IH]; intros rest s H; [reflexivity|].
-  pose proof (Forall_inv H) as Hk. pose proof (Forall_inv_tail H) as Ht. cbn [map app]. rewrite run_wait.
-  cbv beta in Hk. destruct (k <=? s_recvd s)%N eqn:E; [apply IH; assumption|]. apply N.leb_gt in E. lia.
-Qed.
-
-(* one exchange of a client that never has two requests in the same write *)
+(* one exchange: the request, what it parses to, the backend's reply, what it parses
+   to, and how the backend writes it *)
 Record exch := mkEx {
-  x_msg : bytes; x_req : sem_req;        (* the request, and what it parses to *)
-  x_segs : list bytes;                   (* how the client writes it *)
-  x_waits : list N;                      (* replies it then waits for (none: it goes on at once) *)
-  x_raw : bytes; x_resp : sem_resp;      (* the backend's reply, and what it parses to *)
-  x_rsegs : list bytes }.                (* how the backend writes it *)
+  x_msg : bytes; x_req : sem_req;
+  x_raw : bytes; x_resp : sem_resp;
+  x_rsegs : list bytes }.
 
-Definition ex_ok (j : N) (e : exch) : Prop :=
-  sd_req (x_msg e) (x_req e) /\ concat (x_segs e) = x_msg e /\ Forall (fun s => s <> []) (x_segs e) /\
-  Forall (fun k => (k <= j + 1)%N) (x_waits e) /\
-  sd_resp (is_head (x_req e)) (x_raw e) (x_resp e) /\ concat (x_rsegs e) = x_raw e /\
-  stray_after (is_head (x_req e)) (x_resp e) = false.
+Definition ex_ok (e : exch) : Prop :=
+  sd_req (x_msg e) (x_req e) /\
+  sd_resp (is_head (x_req e)) (x_raw e) (x_resp e) /\ concat (x_rsegs e) = x_raw e.
 
-Fixpoint exs_ok (j : N) (exs : list exch) : Prop :=
-  match exs with [] => True | e :: r => ex_ok j e /\ exs_ok (j + 1)%N r end.
+Definition stream (exs : list exch) : bytes := concat (map x_msg exs).
+Definition fwd_of (exs : list exch) : list sem_req := map (fun e => reser_req (x_req e)) exs.
+Definition del_of (exs : list exch) : list sem_resp := map (fun e => reser_resp (x_resp e)) exs.
 
-Definition items_of (e : exch) : list citem := map ISeg (x_segs e) ++ map IWait (x_waits e).
+Definition proper (buf : bytes) (rem : list exch) : Prop :=
+  match rem with [] => buf = [] | e :: _ => (length buf < length (x_msg e))%nat end.
 
-Lemma relay_aligned_gen exs : forall s,
-  exs_ok (s_recvd s) exs -> s_buf s = [] -> s_broken s = false -> s_replies s = map x_rsegs exs ->
-  exists s', run (flat_map items_of exs) s = (s', EEof) /\
-    s_fwd s' = rev (map (fun e => reser_req (x_req e)) exs) ++ s_fwd s /\
-    s_del s' = rev (map (fun e => reser_resp (x_resp e)) exs) ++ s_del s /\
-    s_recvd s' = (s_recvd s + N.of_nat (length exs))%N /\
-    s_written s' = (s_written s + N.of_nat (length exs))%N /\
-    s_broken s' = false /\ s_buf s' = [].
+Lemma app_prefix_firstn {A} (a b c d : list A) :
+  a ++ b = c ++ d -> (length a <= length c)%nat -> a = firstn (length a) c.
 Proof.
-  induction exs as [|e r IH]; intros s Hok Hbuf Hbr Hrep.
-  - exists s. cbn [flat_map run]. rewrite Hbuf. cbn [map rev app length]. repeat split; auto; lia.
-  - destruct Hok as [(Hsd & Hcat & Hne & Hw & Hsr & Hrcat & Hstray) Hok'].
-    cbn [flat_map]. unfold items_of at 1. rewrite <- app_assoc.
-    rewrite (client_leg _ _ Hsd (x_segs e) s _ Hne).
-    2: { rewrite Hbuf. exact Hcat. }
-    2: { rewrite Hbuf. cbn [length]. pose proof (sd_req_nonempty _ _ Hsd). destruct (x_msg e); [congruence|cbn [length]; lia]. }
-    unfold on_complete. rewrite Hrep. cbn [map tl].
-    rewrite (backend_leg _ _ _ Hsr (x_rsegs e) []) by exact Hrcat.
-    rewrite Hbr, Hstray.
-    set (s1 := mkSt [] (map x_rsegs r) (s_recvd s + 1)%N false (reser_req (x_req e) :: s_fwd s)
-                    (reser_resp (x_resp e) :: s_del s) (s_written s + 1)%N).
-    rewrite (waits_skip (x_waits e) _ s1) by exact Hw.
-    destruct (IH s1 Hok' eq_refl eq_refl eq_refl) as (s' & Hr & Hf & Hd & Hn & Hwr & Hb & Hbf).
-    exists s'. split; [exact Hr|]. cbn [s1 s_fwd s_del s_recvd s_written] in *.
-    cbn [map rev length]. rewrite <- !app_assoc. cbn [app].
-    repeat split; auto; lia.
+  revert c; induction a as [|x a IH]; intros c H Hl; [reflexivity|].
+  destruct c as [|y c]; [cbn [length] in Hl; lia|]. cbn [app] in H. inversion H; subst.
+  cbn [length firstn]. f_equal. apply IH; [assumption|cbn [length] in Hl; lia].
 Qed.
 
-Lemma relay_aligned exs :
-  exs_ok 0 exs ->
-  exists s, run (flat_map items_of exs) (st0 (map x_rsegs exs)) = (s, EEof) /\
-    rev (s_fwd s) = map (fun e => reser_req (x_req e)) exs /\
-    rev (s_del s) = map (fun e => reser_resp (x_resp e)) exs /\
-    s_recvd s = N.of_nat (length exs) /\ s_written s = N.of_nat (length exs) /\ s_broken s = false.
+Lemma app_split_ge {A} (a b c d : list A) :
+  a ++ b = c ++ d -> (length c <= length a)%nat ->
+  a = c ++ skipn (length c) a /\ skipn (length c) a ++ b = d.
 Proof.
-  intros H. destruct (relay_aligned_gen exs (st0 (map x_rsegs exs)) H eq_refl eq_refl eq_refl)
-    as (s & Hr & Hf & Hd & Hn & Hw & Hb & _).
-  exists s. split; [exact Hr|]. cbn [st0 s_fwd s_del s_recvd s_written] in *.
-  rewrite Hf, Hd, !app_nil_r, !rev_involutive. repeat split; auto; lia.
+  revert a; induction c as [|y c IH]; intros a H Hl; [cbn [length skipn app] in *; auto|].
+  destruct a as [|x a]; [cbn [length] in Hl; lia|]. cbn [app] in H. inversion H; subst.
+  cbn [length skipn]. destruct (IH a H2 ltac:(cbn [length] in Hl; lia)) as [E1 E2].
+  split; [cbn [app]; f_equal; exact E1|exact E2].
 Qed.
+
+(* the loop over a buffer that is a prefix of the remaining stream: it serves exactly the
+   requests that are complete in it, in order, and keeps the rest *)
+Lemma drain_spec exs : Forall ex_ok exs ->
+  forall fuel s R,
+    s_buf s ++ R = stream exs -> (length (s_buf s) < fuel)%nat ->
+    s_bbuf s = [] -> concat (s_bq s) = [] -> s_replies s = map x_rsegs exs ->
+    exists done rem s',
+      exs = done ++ rem /\ drain fuel s = (s', None) /\
+      s_buf s = stream done ++ s_buf s' /\ proper (s_buf s') rem /\
+      s_bbuf s' = [] /\ concat (s_bq s') = [] /\ s_replies s' = map x_rsegs rem /\
+      s_recvd s' = (s_recvd s + N.of_nat (length done))%N /\
+      s_fwd s' = rev (fwd_of done) ++ s_fwd s /\ s_del s' = rev (del_of done) ++ s_del s.
+Proof.
+  induction 1 as [|e r He Hr IH]; intros fuel s R Hs Hf Hbb Hbq Hrep.
+  - unfold stream in Hs. cbn [map concat] in Hs. apply app_eq_nil in Hs as [Hb _].
+    destruct fuel as [|f]; [lia|].
+    exists [], [], s. rewrite drain_incomplete by (rewrite Hb; reflexivity).
+    unfold stream, fwd_of, del_of, proper. cbn [map concat rev app length]. repeat split; auto. lia.
+  - destruct He as (Hsd & Hsr & Hrc).
+    destruct fuel as [|f]; [lia|].
+    unfold stream in Hs. cbn [map concat] in Hs.
+    destruct (Nat.lt_ge_cases (length (s_buf s)) (length (x_msg e))) as [Hlt|Hge].
+    + (* only a proper prefix of the next request is there *)
+      pose proof (app_prefix_firstn _ _ _ _ Hs ltac:(lia)) as Hpre.
+      destruct Hsd as [_ Hp].
+      exists [], (e :: r), s. rewrite drain_incomplete by (rewrite Hpre; apply Hp, Hlt).
+      unfold stream, fwd_of, del_of, proper. cbn [map concat rev app length]. repeat split; auto. lia.
+    + destruct (app_split_ge _ _ _ _ Hs Hge) as [Hsplit Hrest].
+      set (B' := skipn (length (x_msg e)) (s_buf s)) in *.
+      assert (Hfr : frame_req (s_buf s) = QComplete (length (x_msg e)) (x_req e))
+        by (rewrite Hsplit; apply Hsd).
+      destruct (backend_leg _ _ _ Hsr (s_bq s ++ x_rsegs e) []) as (rest & Hrr & Hrest0).
+      { cbn [app]. rewrite concat_app, Hbq, Hrc. reflexivity. }
+      rewrite (drain_step f s _ _ (x_resp e) [] rest Hfr).
+      2: { rewrite Hbb, Hrep. cbn [map]. exact Hrr. }
+      fold B'.
+      pose proof (sd_req_nonempty _ _ Hsd) as Hne.
+      assert (Hlen : (length B' < f)%nat).
+      { unfold B'. rewrite skipn_length. destruct (x_msg e); [congruence|]. cbn [length] in *. lia. }
+      destruct (IH f (mkSt B' [] rest (tl (s_replies s)) (s_recvd s + 1)%N
+                         (reser_req (x_req e) :: s_fwd s) (reser_resp (x_resp e) :: s_del s)) R)
+        as (done & rem & s' & Hex & Hd & Hb & Hpr & Hbb' & Hbq' & Hrep' & Hrc' & Hfw & Hdl); cbn [s_buf s_bbuf s_bq s_replies].
+      * exact Hrest.
+      * exact Hlen.
+      * reflexivity.
+      * exact Hrest0.
+      * rewrite Hrep. reflexivity.
+      * exists (e :: done), rem, s'. cbn [s_buf s_recvd s_fwd s_del] in *.
+        split; [rewrite Hex; reflexivity|]. split; [exact Hd|].
+        split; [rewrite Hsplit at 1; unfold stream in *; cbn [map concat]; rewrite <- app_assoc, <- Hb; reflexivity|].
+        split; [exact Hpr|]. split; [exact Hbb'|]. split; [exact Hbq'|]. split; [exact Hrep'|].
+        unfold fwd_of, del_of in *. cbn [map rev length].
+        split; [rewrite Hrc'; lia|]. rewrite Hfw, Hdl, <- !app_assoc. split; reflexivity.
+Qed.
+
+(* what the client does: its writes, in order, make up the stream; it may wait for k
+   replies only once k requests are completely written *)
+Fixpoint stream_of (its : list citem) : bytes :=
+  match its with
+  | [] => []
+  | ISeg b :: r => b ++ stream_of r
+  | IWait _ :: r => stream_of r
+  end.
+
+Fixpoint complete_count (lens : list nat) (t : nat) : nat :=
+  match lens with
+  | [] => 0
+  | l :: r => if (l <=? t)%nat then S (complete_count r (t - l)) else 0
+  end.
+
+Fixpoint waits_ok (lens : list nat) (t : nat) (its : list citem) : Prop :=
+  match its with
+  | [] => True
+  | ISeg b :: r => waits_ok lens (t + length b) r
+  | IWait k :: r => (N.to_nat k <= complete_count lens t)%nat /\ waits_ok lens t r
+  end.
+
+Definition lens_of (exs : list exch) : list nat := map (fun e => length (x_msg e)) exs.
+
+Lemma stream_app a b : stream (a ++ b) = stream a ++ stream b.
+Proof. unfold stream. rewrite map_app, concat_app. reflexivity. Qed.
+
+Lemma complete_count_done done : forall rem p, proper p rem ->
+  complete_count (lens_of (done ++ rem)) (length (stream done) + length p) = length done.
+Proof.
+  induction done as [|d done IH]; intros rem p Hp.
+  - cbn [app stream map concat length Nat.add]. unfold stream. cbn [map concat length Nat.add].
+    destruct rem as [|e rem]; [reflexivity|]. cbn [lens_of map complete_count].
+    cbn [proper] in Hp. destruct (length (x_msg e) <=? length p)%nat eqn:E; [apply Nat.leb_le in E; lia|reflexivity].
+  - assert (E1 : stream (d :: done) = x_msg d ++ stream done) by reflexivity.
+    assert (E2 : lens_of ((d :: done) ++ rem) = length (x_msg d) :: lens_of (done ++ rem)) by reflexivity.
+    rewrite E1, E2, app_length. cbn [complete_count length].
+    destruct (length (x_msg d) <=? length (x_msg d) + length (stream done) + length p)%nat eqn:E;
+      [|apply Nat.leb_gt in E; lia].
+    f_equal. replace (length (x_msg d) + length (stream done) + length p - length (x_msg d))%nat
+      with (length (stream done) + length p)%nat by lia.
+    apply IH, Hp.
+Qed.
+
+Lemma run_seg b r s :
+  run (ISeg b :: r) s =
+  match drain (S (length (s_buf s ++ b))) (set_buf s (s_buf s ++ b)) with
+  | (s2, None) => run r s2
+  | (s2, Some e) => (s2, e)
+  end.
+Proof. reflexivity. Qed.
+
+Lemma relay_gen its : forall done rem s,
+  Forall ex_ok rem ->
+  s_buf s ++ stream_of its = stream rem -> proper (s_buf s) rem ->
+  s_bbuf s = [] -> concat (s_bq s) = [] -> s_replies s = map x_rsegs rem ->
+  s_recvd s = N.of_nat (length done) ->
+  waits_ok (lens_of (done ++ rem)) (length (stream done) + length (s_buf s)) its ->
+  exists s', run its s = (s', EEof) /\
+    s_fwd s' = rev (fwd_of rem) ++ s_fwd s /\ s_del s' = rev (del_of rem) ++ s_del s /\
+    s_recvd s' = N.of_nat (length done + length rem).
+Proof.
+  induction its as [|it its IH]; intros done rem s Hok Hs Hp Hbb Hbq Hrep Hrc Hw.
+  - cbn [stream_of] in Hs. rewrite app_nil_r in Hs.
+    destruct rem as [|e rem].
+    + cbn [proper] in Hp. exists s. cbn [run]. rewrite Hp.
+      unfold fwd_of, del_of. cbn [map rev app length]. repeat split; auto. rewrite Hrc. f_equal. lia.
+    + exfalso. cbn [proper] in Hp. unfold stream in Hs. cbn [map concat] in Hs.
+      assert (length (s_buf s) = length (x_msg e ++ concat (map x_msg rem))) by (rewrite Hs; reflexivity).
+      rewrite app_length in H. lia.
+  - destruct it as [b|k].
+    + cbn [stream_of] in Hs. cbn [waits_ok] in Hw. rewrite run_seg.
+      destruct (drain_spec rem Hok (S (length (s_buf s ++ b))) (set_buf s (s_buf s ++ b)) (stream_of its))
+        as (done2 & rem2 & s' & Hex & Hd & Hb & Hpr & Hbb' & Hbq' & Hrep' & Hrc' & Hfw & Hdl).
+      { cbn [set_buf s_buf]. rewrite <- app_assoc. exact Hs. }
+      { cbn [set_buf s_buf]. lia. }
+      { exact Hbb. }
+      { exact Hbq. }
+      { exact Hrep. }
+      rewrite Hd. cbn [set_buf s_buf s_recvd s_fwd s_del] in *.
+      subst rem. apply Forall_app in Hok as [_ Hok2].
+      destruct (IH (done ++ done2) rem2 s' Hok2) as (s'' & Hrun & Hf2 & Hd2 & Hn2); auto.
+      * rewrite stream_app in Hs.
+        assert (E : (stream done2 ++ s_buf s') ++ stream_of its = stream done2 ++ stream rem2)
+          by (rewrite <- Hb, <- app_assoc; exact Hs).
+        rewrite <- app_assoc in E. apply app_inv_head in E. exact E.
+      * rewrite Hrc', Hrc, app_length. lia.
+      * rewrite <- app_assoc. rewrite stream_app, app_length.
+        replace (length (stream done) + length (stream done2) + length (s_buf s'))%nat
+          with (length (stream done) + length (s_buf s) + length b)%nat; [exact Hw|].
+        assert (E : length (s_buf s ++ b) = length (stream done2 ++ s_buf s')) by (rewrite Hb; reflexivity).
+        rewrite !app_length in E. lia.
+      * exists s''. split; [exact Hrun|]. unfold fwd_of, del_of in *.
+        rewrite Hf2, Hd2, Hfw, Hdl, !map_app, !rev_app_distr, <- !app_assoc.
+        repeat split; auto. rewrite Hn2, !app_length. f_equal. lia.
+    + cbn [stream_of] in Hs. cbn [waits_ok] in Hw. destruct Hw as [Hk Hw]. cbn [run].
+      rewrite (complete_count_done done rem (s_buf s) Hp) in Hk.
+      destruct (k <=? s_recvd s)%N eqn:E; [|apply N.leb_gt in E; lia].
+      apply (IH done rem s); auto.
+Qed.
+
+(* for ALL segmentations of the client's stream - requests cut anywhere, several requests
+   or parts of them in one write - and of every reply: every request reaches the backend,
+   every reply the client, in order, once *)
+Lemma relay_all_segmentations exs its :
+  Forall ex_ok exs -> stream_of its = stream exs -> waits_ok (lens_of exs) 0 its ->
+  exists s, run its (st0 (map x_rsegs exs)) = (s, EEof) /\
+    rev (s_fwd s) = fwd_of exs /\ rev (s_del s) = del_of exs /\ s_recvd s = N.of_nat (length exs).
+Proof.
+  intros Hok Hs Hw.
+  destruct (relay_gen its [] exs (st0 (map x_rsegs exs)) Hok) as (s & Hr & Hf & Hd & Hn); cbn [st0 s_buf s_bbuf s_bq s_replies s_recvd]; auto.
+  - destruct exs as [|e r]; cbn [proper]; [reflexivity|].
+    inversion Hok as [|? ? [Hsd _] _]. pose proof (sd_req_nonempty _ _ Hsd). destruct (x_msg e); [congruence|cbn [length]; lia].
+  - exists s. cbn [st0 s_fwd s_del] in *. rewrite Hf, Hd, !app_nil_r, !rev_involutive. repeat split; auto.
+Qed.
+(* the same for a reply with a declared length, or without a body *)
+Lemma frame_resp_sd h raw p :
+  frame_resp h raw = PComplete (length raw) p -> (p_chunked p = false \/ h = true \/ no_body_status (p_status p) = true) ->
+  sd_resp h raw p.
+Proof.
+  intros H Hc. split; [exact H|]. intros k Hk.
+  unfold frame_resp in H |- *.
+  destruct (find_crlf2 raw) as [i|] eqn:F; [|discriminate].
+  pose proof (find_crlf2_bound _ _ F) as Hb.
+  destruct (Nat.lt_ge_cases k (i + 4)) as [Hlt|Hge].
+  - rewrite (find_crlf2_firstn_lt _ _ _ F Hlt). reflexivity.
+  - rewrite (find_crlf2_firstn_ge _ _ _ F Hge).
+    rewrite (firstn_firstn_le raw i k) by lia.
+    destruct (split_crlf (firstn i raw)) as [|l0 ls]; [discriminate|].
+    destruct (parse_statusline l0) as [st|]; [|discriminate].
+    destruct (parse_headers ls) as [hs|]; [|discriminate].
+    destruct (h || no_body_status st) eqn:Enb.
+    + inversion H as [[Hn Hm]]. lia.
+    + destruct (body_kind_of hs BKBad) as [|n|]; [discriminate| |].
+      * destruct (N.to_nat n <=? length (skipn (i + 4) raw))%nat eqn:E; [|discriminate].
+        inversion H as [[Hn Hm]]. rewrite skipn_firstn_length by lia.
+        destruct (N.to_nat n <=? k - (i + 4))%nat eqn:E2; [|reflexivity].
+        apply Nat.leb_le in E2. lia.
+      * destruct (dechunk _ _ _ _); try discriminate. inversion H as [[Hn Hm]]. subst p. cbn in Hc.
+        apply orb_false_iff in Enb as [-> Hs]. destruct Hc as [Hc|[Hc|Hc]]; congruence.
+Qed.
+
 
 (* ------------------------------------------------------------------ *)
 (* re-serialisation contract                                           *)
@@ -467,11 +805,8 @@ Lemma reser_req_contract m :
   let m' := reser_req m in
   r_method m' = r_method m /\ r_target m' = r_target m /\ r_host m' = r_host m /\
   r_chunked m' = r_chunked m /\ r_body m' = r_body m /\
-  Permutation (r_headers m') (ua_fix (pragma_fix (r_headers m))).
+  Permutation (r_headers m') (pragma_fix (r_headers m)).
 Proof. cbn. repeat split; auto. apply sort_headers_perm. Qed.
-
-Lemma ua_fix_id hs v : hget S_UA hs = Some v -> v <> [] -> ua_fix hs = hs.
-Proof. intros H Hv. unfold ua_fix. rewrite H. destruct v; [congruence|reflexivity]. Qed.
 
 Lemma pragma_fix_id hs : hget S_PRAGMA hs = None \/ hget S_CC hs <> None -> pragma_fix hs = hs.
 Proof.
@@ -480,11 +815,10 @@ Proof.
   - destruct (hget S_PRAGMA hs); [|reflexivity]. destruct (hget S_CC hs); [reflexivity|congruence].
 Qed.
 
-Lemma reser_req_same_headers m v :
-  hget S_UA (r_headers m) = Some v -> v <> [] ->
+Lemma reser_req_same_headers m :
   hget S_PRAGMA (r_headers m) = None \/ hget S_CC (r_headers m) <> None ->
   Permutation (r_headers (reser_req m)) (r_headers m).
-Proof. intros H Hv Hp. cbn. rewrite (pragma_fix_id _ Hp), (ua_fix_id _ _ H Hv). apply sort_headers_perm. Qed.
+Proof. intros Hp. cbn. rewrite (pragma_fix_id _ Hp). apply sort_headers_perm. Qed.
 
 Lemma reser_resp_contract p :
   let p' := reser_resp p in
@@ -493,25 +827,44 @@ Lemma reser_resp_contract p :
 Proof. cbn. repeat split; auto. apply sort_headers_perm. Qed.
 
 (* ------------------------------------------------------------------ *)
-(* (c) the type switch behind the server's wrapper                     *)
+(* (c) copy and dns-proxy behind the server's wrappers                  *)
 
-Lemma switch_behind_server peeked accepted : type_switch (server_wrap peeked accepted) = BDefault.
-Proof. reflexivity. Qed.
+Lemma local_kind_behind_server peeked accepted : local_kind (server_wrap peeked accepted) = local_kind accepted.
+Proof. destruct peeked; reflexivity. Qed.
 
-Lemma copy_behind_server peeked accepted segs reply :
-  copy_model (server_wrap peeked accepted) segs reply = raw_nothing.
-Proof. reflexivity. Qed.
+Lemma switch_behind_server peeked accepted : type_switch (server_wrap peeked accepted) = type_switch accepted.
+Proof. unfold type_switch. rewrite local_kind_behind_server. reflexivity. Qed.
 
-Lemma dns_behind_server peeked accepted d parses reply :
-  dns_model (server_wrap peeked accepted) d parses reply = raw_nothing.
-Proof. reflexivity. Qed.
+(* copy, stream: both directions unchanged, one backend connection, one event *)
+Lemma copy_stream_behind_server peeked accepted segs reply : local_kind accepted = ATcp ->
+  copy_model (server_wrap peeked accepted) segs reply = mkRaw 1 segs reply 1.
+Proof. intros H. unfold copy_model. rewrite switch_behind_server. unfold type_switch. rewrite H. reflexivity. Qed.
 
-Lemma copy_bare k segs reply : k = KTcpConn \/ k = KDummyUdp ->
-  copy_model k segs reply = mkRaw 1 segs reply 1.
-Proof. intros [-> | ->]; reflexivity. Qed.
+(* copy, datagram: the datagram, then one reply *)
+Lemma copy_datagram_behind_server peeked accepted d reply more : local_kind accepted = AUdp ->
+  copy_model (server_wrap peeked accepted) [d] (reply :: more) = mkRaw 1 [d ++ []] [reply] 1.
+Proof. intros H. unfold copy_model. rewrite switch_behind_server. unfold type_switch. rewrite H. reflexivity. Qed.
 
-Lemma dns_bare d reply : dns_model KDummyUdp d true (Some reply) = mkRaw 1 [d] [reply] 1.
-Proof. reflexivity. Qed.
+(* dns-proxy, datagram that is a DNS message: relayed, answered, recorded *)
+Lemma dns_datagram_behind_server peeked accepted d reply more got : local_kind accepted = AUdp ->
+  dns_model (server_wrap peeked accepted) [d] true (reply :: more) got = mkRaw 1 [d ++ []] [reply] 1.
+Proof. intros H. unfold dns_model. rewrite switch_behind_server. unfold type_switch. rewrite H. reflexivity. Qed.
+
+(* what remains: a datagram that is not a DNS message is forwarded but neither recorded nor answered *)
+Lemma dns_datagram_not_dns peeked accepted d reply got : local_kind accepted = AUdp ->
+  dns_model (server_wrap peeked accepted) [d] false reply got = mkRaw 1 [d ++ []] [] 0.
+Proof. intros H. unfold dns_model. rewrite switch_behind_server. unfold type_switch. rewrite H. reflexivity. Qed.
+
+(* what remains: over a stream dns-proxy does ONE Read each way: of a query written in
+   several pieces only the first reaches the backend (if it parses at all) *)
+Lemma dns_stream_single_read peeked accepted q more reply got : local_kind accepted = ATcp ->
+  dns_model (server_wrap peeked accepted) (q :: more) true reply got = mkRaw 1 [q] [firstn got (concat reply)] 1 /\
+  dns_model (server_wrap peeked accepted) (q :: more) false reply got = raw_nothing.
+Proof. intros H. unfold dns_model. rewrite switch_behind_server. unfold type_switch. rewrite H. split; reflexivity. Qed.
+
+Lemma other_address_nothing peeked a segs reply : a = AOtherAddr ->
+  copy_model (server_wrap peeked (KOther a)) segs reply = raw_nothing.
+Proof. intros ->. destruct peeked; reflexivity. Qed.
 
 (* ------------------------------------------------------------------ *)
 (* (d) ssh                                                             *)
@@ -642,6 +995,25 @@ Proof.
     apply partition_perm.
 Qed.
 
+
+(* closing: whatever was written before the close is delivered, for every interleaving of
+   the copier with the (now harmless) end of the request goroutine *)
+Lemma relay_until_close_all chunks : forall sched, relay_until_close chunks sched = concat chunks.
+Proof.
+  induction chunks as [|c cs IH]; intros sched.
+  - induction sched as [|[|] r IHr]; cbn [relay_until_close]; auto.
+  - induction sched as [|[|] r IHr]; cbn [relay_until_close]; auto.
+    cbn [concat]. rewrite IH. reflexivity.
+Qed.
+
+(* data written after a channel request can overtake it *)
+Lemma ssh_cross_order_refuted :
+  exists msgs sched, ssh_relay msgs sched <> msgs.
+Proof.
+  exists [MReq [101; 120; 101; 99]%N true [108; 115]%N; MData [120]%N], [false].
+  vm_compute. discriminate.
+Qed.
+
 (* ------------------------------------------------------------------ *)
 (* concrete messages used as witnesses                                  *)
 
@@ -664,134 +1036,11 @@ Definition W_REQ_CHUNKED : bytes := [80;85;84;32;47;99;32;72;84;84;80;47;49;46;4
 (* HTTP/1.1 404 Not Found\r\nServer: s\r\nTransfer-Encoding: chunked\r\n\r\n4\r\nnope\r\n0\r\n\r\n *)
 Definition W_REPLY_CHUNKED : bytes := [72;84;84;80;47;49;46;49;32;52;48;52;32;78;111;116;32;70;111;117;110;100;13;10;83;101;114;118;101;114;58;32;115;13;10;84;114;97;110;115;102;101;114;45;69;110;99;111;100;105;110;103;58;32;99;104;117;110;107;101;100;13;10;13;10;52;13;10;110;111;112;101;13;10;48;13;10;13;10]%N.
 
-(* ------------------------------------------------------------------ *)
-(* the concrete framing is self-delimiting for length-framed messages   *)
-
-Lemma is_prefix_length p l : is_prefix p l = true -> (length p <= length l)%nat.
-Proof.
-  revert l; induction p as [|x p IH]; intros l H; cbn [length]; [lia|].
-  destruct l as [|y l]; cbn [is_prefix] in H; [discriminate|].
-  apply andb_true_iff in H as [_ H]. specialize (IH _ H). cbn [length]. lia.
-Qed.
-
-Lemma is_prefix_firstn p k l : is_prefix p (firstn k l) = true -> is_prefix p l = true.
-Proof.
-  revert k l; induction p as [|x p IH]; intros k l H; [reflexivity|].
-  destruct k as [|k]; [cbn in H; discriminate|]. destruct l as [|y l]; [cbn in H; discriminate|].
-  cbn [firstn is_prefix] in *. apply andb_true_iff in H as [H1 H2]. rewrite H1, (IH _ _ H2). reflexivity.
-Qed.
-
-Lemma is_prefix_firstn_ge p k l : is_prefix p l = true -> (length p <= k)%nat -> is_prefix p (firstn k l) = true.
-Proof.
-  revert k l; induction p as [|x p IH]; intros k l H Hk; [reflexivity|].
-  destruct l as [|y l]; [cbn in H; discriminate|]. destruct k as [|k]; [cbn [length] in Hk; lia|].
-  cbn [firstn is_prefix] in *. apply andb_true_iff in H as [H1 H2]. rewrite H1. cbn [andb].
-  apply IH; [exact H2|cbn [length] in Hk; lia].
-Qed.
-
-Lemma find_crlf2_short l : (length l < 4)%nat -> find_crlf2 l = None.
-Proof.
-  induction l as [|x l IH]; intros H; [reflexivity|]. cbn [find_crlf2].
-  destruct (is_prefix CRLF2 (x :: l)) eqn:E.
-  - apply is_prefix_length in E. cbn [CRLF2 length] in *. lia.
-  - rewrite IH; [reflexivity|cbn [length] in H; lia].
-Qed.
-
-Lemma find_crlf2_firstn_lt l : forall i k, find_crlf2 l = Some i -> (k < i + 4)%nat -> find_crlf2 (firstn k l) = None.
-Proof.
-  induction l as [|x l IH]; intros i k H Hk; [discriminate|].
-  destruct k as [|k]; [reflexivity|]. cbn [firstn]. cbn [find_crlf2] in H.
-  destruct (is_prefix CRLF2 (x :: l)) eqn:E.
-  - inversion H; subst i. apply find_crlf2_short.
-    change (x :: firstn k l) with (firstn (S k) (x :: l)). rewrite firstn_length. lia.
-  - destruct (find_crlf2 l) as [i'|] eqn:F; [|discriminate]. inversion H; subst i.
-    cbn [find_crlf2].
-    destruct (is_prefix CRLF2 (x :: firstn k l)) eqn:E2.
-    + change (x :: firstn k l) with (firstn (S k) (x :: l)) in E2. apply is_prefix_firstn in E2. congruence.
-    + rewrite (IH i' k eq_refl) by lia. reflexivity.
-Qed.
-
-Lemma find_crlf2_firstn_ge l : forall i k, find_crlf2 l = Some i -> (i + 4 <= k)%nat -> find_crlf2 (firstn k l) = Some i.
-Proof.
-  induction l as [|x l IH]; intros i k H Hk; [discriminate|].
-  destruct k as [|k]; [lia|]. cbn [firstn]. cbn [find_crlf2] in H. cbn [find_crlf2].
-  destruct (is_prefix CRLF2 (x :: l)) eqn:E.
-  - inversion H; subst i.
-    change (x :: firstn k l) with (firstn (S k) (x :: l)).
-    rewrite (is_prefix_firstn_ge _ _ _ E) by (cbn [CRLF2 length]; lia). reflexivity.
-  - destruct (find_crlf2 l) as [i'|] eqn:F; [|discriminate]. inversion H; subst i.
-    destruct (is_prefix CRLF2 (x :: firstn k l)) eqn:E2.
-    + change (x :: firstn k l) with (firstn (S k) (x :: l)) in E2. apply is_prefix_firstn in E2. congruence.
-    + rewrite (IH i' k eq_refl) by lia. reflexivity.
-Qed.
-
-Lemma find_crlf2_bound l i : find_crlf2 l = Some i -> (i + 4 <= length l)%nat.
-Proof.
-  revert i; induction l as [|x l IH]; intros i H; [discriminate|]. cbn [find_crlf2] in H.
-  destruct (is_prefix CRLF2 (x :: l)) eqn:E.
-  - inversion H; subst. apply is_prefix_length in E. cbn [CRLF2 length] in *. lia.
-  - destruct (find_crlf2 l) as [i'|]; [|discriminate]. inversion H; subst. specialize (IH _ eq_refl). cbn [length]. lia.
-Qed.
-
-Lemma firstn_firstn_le {A} (l : list A) i k : (i <= k)%nat -> firstn i (firstn k l) = firstn i l.
-Proof. intros H. rewrite firstn_firstn. f_equal. lia. Qed.
-
-Lemma skipn_firstn_length {A} (l : list A) a k : (k <= length l)%nat ->
-  length (skipn a (firstn k l)) = (k - a)%nat.
-Proof. intros H. rewrite skipn_length, firstn_length. lia. Qed.
-
-(* a length-framed request that parses as exactly itself is self-delimiting *)
-Lemma frame_req_sd msg m :
-  frame_req msg = QComplete (length msg) m -> r_chunked m = false -> sd_req msg m.
-Proof.
-  intros H Hc. split; [exact H|]. intros k Hk.
-  unfold frame_req in H |- *.
-  destruct (find_crlf2 msg) as [i|] eqn:F; [|discriminate].
-  pose proof (find_crlf2_bound _ _ F) as Hb.
-  destruct (Nat.lt_ge_cases k (i + 4)) as [Hlt|Hge].
-  - rewrite (find_crlf2_firstn_lt _ _ _ F Hlt). reflexivity.
-  - rewrite (find_crlf2_firstn_ge _ _ _ F Hge).
-    rewrite (firstn_firstn_le msg i k) by lia.
-    destruct (split_crlf (firstn i msg)) as [|l0 ls]; [discriminate|].
-    destruct (parse_reqline l0) as [[mt tg]|]; [|discriminate].
-    destruct (parse_headers ls) as [hs|]; [|discriminate].
-    destruct (body_kind_of hs (BKLen 0)) as [|n|]; [discriminate| |].
-    + destruct (N.to_nat n <=? length (skipn (i + 4) msg))%nat eqn:E; [|discriminate].
-      inversion H as [[Hn Hm]]. rewrite skipn_firstn_length by lia.
-      destruct (N.to_nat n <=? k - (i + 4))%nat eqn:E2; [|reflexivity].
-      apply Nat.leb_le in E2. lia.
-    + destruct (dechunk _ _ _ _); try discriminate. inversion H as [[Hn Hm]]. subst m. cbn in Hc. discriminate.
-Qed.
-
-(* the same for a reply with a declared length, or without a body *)
-Lemma frame_resp_sd h raw p :
-  frame_resp h raw = PComplete (length raw) p -> (p_chunked p = false \/ h = true \/ no_body_status (p_status p) = true) ->
-  sd_resp h raw p.
-Proof.
-  intros H Hc. split; [exact H|]. intros k Hk.
-  unfold frame_resp in H |- *.
-  destruct (find_crlf2 raw) as [i|] eqn:F; [|discriminate].
-  pose proof (find_crlf2_bound _ _ F) as Hb.
-  destruct (Nat.lt_ge_cases k (i + 4)) as [Hlt|Hge].
-  - rewrite (find_crlf2_firstn_lt _ _ _ F Hlt). reflexivity.
-  - rewrite (find_crlf2_firstn_ge _ _ _ F Hge).
-    rewrite (firstn_firstn_le raw i k) by lia.
-    destruct (split_crlf (firstn i raw)) as [|l0 ls]; [discriminate|].
-    destruct (parse_statusline l0) as [st|]; [|discriminate].
-    destruct (parse_headers ls) as [hs|]; [|discriminate].
-    destruct (h || no_body_status st) eqn:Enb.
-    + inversion H as [[Hn Hm]]. lia.
-    + destruct (body_kind_of hs BKBad) as [|n|]; [discriminate| |].
-      * destruct (N.to_nat n <=? length (skipn (i + 4) raw))%nat eqn:E; [|discriminate].
-        inversion H as [[Hn Hm]]. rewrite skipn_firstn_length by lia.
-        destruct (N.to_nat n <=? k - (i + 4))%nat eqn:E2; [|reflexivity].
-        apply Nat.leb_le in E2. lia.
-      * destruct (dechunk _ _ _ _); try discriminate. inversion H as [[Hn Hm]]. subst p. cbn in Hc.
-        apply orb_false_iff in Enb as [-> Hs]. destruct Hc as [Hc|[Hc|Hc]]; congruence.
-Qed.
+(* GET /p HTTP/1.1\r\nHost: a\r\nUser-Agent: c\r\nPragma: no-cache\r\n\r\n *)
+Definition W_REQ_PRAGMA : bytes := [71;69;84;32;47;112;32;72;84;84;80;47;49;46;49;13;10;72;111;115;116;58;32;97;13;10;85;115;101;114;45;65;103;101;110;116;58;32;99;13;10;80;114;97;103;109;97;58;32;110;111;45;99;97;99;104;101;13;10;13;10]%N.
 
 (* ------------------------------------------------------------------ *)
-(* executable self-delimitation check (used for chunked witnesses)      *)
+(* executable self-delimitation check (covers chunked witnesses)        *)
 
 Definition DUMMY_REQ : sem_req := mkReq [] [] [] [] false [].
 Definition DUMMY_RESP : sem_resp := mkResp 0 [] false [].
@@ -816,7 +1065,7 @@ Lemma sd_req_b_sound msg : sd_req_b msg = true -> sd_req msg (parsed_req msg).
 Proof.
   unfold sd_req_b, parsed_req. destruct (frame_req msg) as [| |n m] eqn:F; try discriminate.
   intros H. apply andb_true_iff in H as [Hn Hall]. apply Nat.eqb_eq in Hn; subst n.
-  split; [exact F|]. intros k Hk. rewrite forallb_forall in Hall.
+  split; [intros x; apply frame_req_extend, F|]. intros k Hk. rewrite forallb_forall in Hall.
   specialize (Hall k ltac:(apply in_seq; lia)). destruct (frame_req (firstn k msg)); congruence.
 Qed.
 
@@ -829,185 +1078,46 @@ Proof.
 Qed.
 
 (* ------------------------------------------------------------------ *)
-(* refutations                                                         *)
+(* witnesses                                                           *)
 
-(* two requests in one write: the second never reaches the backend *)
-Lemma pipelined_refuted :
-  exists a b ma mb reply p,
-    sd_req a ma /\ sd_req b mb /\ sd_resp false reply p /\
-    exists s, run [ISeg (a ++ b); IWait 2%N] (st0 [[reply]; [reply]]) = (s, EGaveUp) /\
-              rev (s_fwd s) = [reser_req ma] /\ s_recvd s = 1%N.
+(* non-vacuity of the relay theorem: a length-framed POST, a chunked PUT, a HEAD answered
+   with Transfer-Encoding: chunked and a GET; the client's stream is cut inside requests
+   and across request boundaries (pipelined), with waits where they are allowed *)
+Definition EXS : list exch :=
+  [ mkEx W_REQ_POST (parsed_req W_REQ_POST) W_REPLY (parsed_resp false W_REPLY) (cut [3; 30]%N W_REPLY);
+    mkEx W_REQ_CHUNKED (parsed_req W_REQ_CHUNKED) W_REPLY_CHUNKED (parsed_resp false W_REPLY_CHUNKED) (cut [60]%N W_REPLY_CHUNKED);
+    mkEx W_REQ_HEAD (parsed_req W_REQ_HEAD) W_REPLY_HEAD (parsed_resp true W_REPLY_HEAD) [W_REPLY_HEAD];
+    mkEx W_REQ_A (parsed_req W_REQ_A) W_REPLY (parsed_resp false W_REPLY) [W_REPLY] ].
+
+Definition EXS_ITEMS : list citem :=
+  let sm := stream EXS in
+  [ISeg (firstn 10 sm); ISeg (firstn 90 (skipn 10 sm)); IWait 1; ISeg (firstn 100 (skipn 100 sm)); ISeg (skipn 200 sm); IWait 4; IWait 2].
+
+Lemma exs_example_ok : Forall ex_ok EXS /\ stream_of EXS_ITEMS = stream EXS /\ waits_ok (lens_of EXS) 0 EXS_ITEMS.
 Proof.
-  exists W_REQ_A, W_REQ_B, (parsed_req W_REQ_A), (parsed_req W_REQ_B), W_REPLY, (parsed_resp false W_REPLY).
-  split; [apply sd_req_b_sound; vm_compute; reflexivity|].
-  split; [apply sd_req_b_sound; vm_compute; reflexivity|].
-  split; [apply sd_resp_b_sound; vm_compute; reflexivity|].
-  eexists. split; [vm_compute; reflexivity|]. split; vm_compute; reflexivity.
+  split; [|split].
+  - repeat constructor.
+    all: try (apply sd_req_b_sound; vm_compute; reflexivity).
+    all: try (apply sd_resp_b_sound; vm_compute; reflexivity).
+    all: vm_compute; reflexivity.
+  - vm_compute. reflexivity.
+  - vm_compute. repeat split; repeat constructor.
 Qed.
 
-(* the same two requests, one write each and no waiting: both are relayed *)
-Lemma pipelined_aligned_example :
-  exists s, run [ISeg W_REQ_A; ISeg W_REQ_B; IWait 2%N] (st0 [[W_REPLY]; [W_REPLY]]) = (s, EEof) /\
+(* two requests in one write: both are relayed *)
+Lemma pipelined_example :
+  exists s, run [ISeg (W_REQ_A ++ W_REQ_B); IWait 2%N] (st0 [[W_REPLY]; [W_REPLY]]) = (s, EEof) /\
             rev (s_fwd s) = [reser_req (parsed_req W_REQ_A); reser_req (parsed_req W_REQ_B)] /\ s_recvd s = 2%N.
 Proof. eexists. split; [vm_compute; reflexivity|]. split; vm_compute; reflexivity. Qed.
 
-(* a request without User-Agent reaches the backend with net/http's default one *)
-Lemma user_agent_refuted :
-  exists msg m, sd_req msg m /\ hget S_UA (r_headers m) = None /\
-                hget S_UA (r_headers (reser_req m)) = Some S_GOUA.
+(* what remains: the parser adds Cache-Control: no-cache to a message that only says Pragma: no-cache *)
+Lemma pragma_refuted :
+  exists msg m, sd_req msg m /\ hget S_CC (r_headers m) = None /\
+                hget S_CC (r_headers (reser_req m)) = Some S_NOCACHE.
 Proof.
-  exists W_REQ_NOUA, (parsed_req W_REQ_NOUA).
+  exists W_REQ_PRAGMA, (parsed_req W_REQ_PRAGMA).
   split; [apply sd_req_b_sound; vm_compute; reflexivity|]. split; vm_compute; reflexivity.
 Qed.
-
-(* HEAD answered with Transfer-Encoding: chunked: the client's stream is corrupted; a
-   lock-step client never sees the reply to its next request *)
-Lemma head_chunked_refuted :
-  exists a b ma mb r1 p1 r2 p2,
-    sd_req a ma /\ sd_req b mb /\ sd_resp true r1 p1 /\ sd_resp false r2 p2 /\
-    exists s, run [ISeg a; IWait 1%N; ISeg b; IWait 2%N] (st0 [[r1]; [r2]]) = (s, EGaveUp) /\
-              s_broken s = true /\ length (s_fwd s) = 2%nat /\ s_written s = 2%N /\ length (s_del s) = 1%nat.
-Proof.
-  exists W_REQ_HEAD, W_REQ_A, (parsed_req W_REQ_HEAD), (parsed_req W_REQ_A),
-         W_REPLY_HEAD, (parsed_resp true W_REPLY_HEAD), W_REPLY, (parsed_resp false W_REPLY).
-  split; [apply sd_req_b_sound; vm_compute; reflexivity|].
-  split; [apply sd_req_b_sound; vm_compute; reflexivity|].
-  split; [apply sd_resp_b_sound; vm_compute; reflexivity|].
-  split; [apply sd_resp_b_sound; vm_compute; reflexivity|].
-  eexists. split; [vm_compute; reflexivity|]. repeat split; vm_compute; reflexivity.
-Qed.
-
-Lemma copy_relays_refuted :
-  exists segs reply, concat segs <> [] /\
-    w_backend (copy_model (server_wrap false KTcpConn) segs reply) = [] /\
-    w_backend (copy_model (server_wrap false KDummyUdp) segs reply) = [].
-Proof. exists [[104; 105]%N], [[111; 107]%N]. split; [discriminate|]. split; reflexivity. Qed.
-
-Lemma dns_relays_refuted :
-  exists d reply, d <> [] /\ w_backend (dns_model (server_wrap false KDummyUdp) d true (Some reply)) = [].
-Proof. exists [1; 2]%N, [3]%N. split; [discriminate|reflexivity]. Qed.
-
-(* early close: what arrives is always a prefix of what was sent, never anything else *)
-Lemma relay_until_close_prefix chunks : forall sched,
-  exists rest, concat chunks = relay_until_close chunks sched ++ rest.
-Proof.
-  induction chunks as [|c cs IH]; intros sched.
-  - destruct sched as [|[|] r]; exists []; reflexivity.
-  - destruct sched as [|[|] r]; cbn [relay_until_close].
-    + exists []. rewrite app_nil_r. reflexivity.
-    + destruct (IH r) as [rest Hr]. exists rest. cbn [concat]. rewrite Hr, app_assoc. reflexivity.
-    + exists (concat (c :: cs)). reflexivity.
-Qed.
-
-Lemma relay_until_close_complete chunks sched :
-  (length chunks <= length sched)%nat -> Forall (fun b => b = true) sched ->
-  relay_until_close chunks sched = concat chunks.
-Proof.
-  revert sched; induction chunks as [|c cs IH]; intros sched Hl Hall.
-  - destruct sched as [|b r]; [reflexivity|]. pose proof (Forall_inv Hall) as Hb. cbv beta in Hb. subst b. reflexivity.
-  - destruct sched as [|b r]; [reflexivity|]. pose proof (Forall_inv Hall) as Hb. cbv beta in Hb. subst b.
-    cbn [relay_until_close concat]. rewrite IH; [reflexivity|cbn [length] in Hl; lia|apply (Forall_inv_tail Hall)].
-Qed.
-
-Lemma early_close_refuted : exists chunks sched, relay_until_close chunks sched <> concat chunks.
-Proof. exists [[1]%N; [2]%N], [true; false]. vm_compute. discriminate. Qed.
-
-(* data written after a channel request can overtake it *)
-Lemma ssh_cross_order_refuted :
-  exists msgs sched, ssh_relay msgs sched <> msgs.
-Proof.
-  exists [MReq [101; 120; 101; 99]%N true [108; 115]%N; MData [120]%N], [false].
-  vm_compute. discriminate.
-Qed.
-
-(* non-vacuity of the relay theorem: a length-framed POST written in three pieces and
-   awaited, then a chunked PUT and a GET written back to back without waiting (one
-   write each), the backend answering in pieces, once chunked *)
-Definition EXS : list exch :=
-  [ mkEx W_REQ_POST (parsed_req W_REQ_POST) (cut [10; 70]%N W_REQ_POST) [1%N]
-         W_REPLY (parsed_resp false W_REPLY) (cut [3; 30]%N W_REPLY);
-    mkEx W_REQ_CHUNKED (parsed_req W_REQ_CHUNKED) [W_REQ_CHUNKED] []
-         W_REPLY_CHUNKED (parsed_resp false W_REPLY_CHUNKED) (cut [60]%N W_REPLY_CHUNKED);
-    mkEx W_REQ_A (parsed_req W_REQ_A) (cut [1]%N W_REQ_A) [3%N; 2%N]
-         W_REPLY (parsed_resp false W_REPLY) [W_REPLY] ].
-
-Lemma exs_example_ok : exs_ok 0 EXS.
-Proof.
-  cbn [exs_ok EXS]. repeat split.
-  all: try (apply sd_req_b_sound; vm_compute; reflexivity).
-  all: try (apply sd_resp_b_sound; vm_compute; reflexivity).
-  all: try (vm_compute; reflexivity).
-  all: try (repeat constructor; try discriminate; vm_compute; intros; discriminate).
-Qed.
-
-(* ------------------------------------------------------------------ *)
-(* the read-ahead defect in general: whatever shares a write with the end of a
-   (length-framed) request is read into the same buffer and dropped with the reader *)
-
-Lemma is_prefix_app p l x : is_prefix p l = true -> is_prefix p (l ++ x) = true.
-Proof.
-  revert l; induction p as [|a p IH]; intros l H; [reflexivity|].
-  destruct l as [|b l]; [cbn in H; discriminate|]. cbn [app is_prefix] in *.
-  apply andb_true_iff in H as [H1 H2]. rewrite H1, (IH _ H2). reflexivity.
-Qed.
-
-Lemma find_crlf2_app l x : forall i, find_crlf2 l = Some i -> find_crlf2 (l ++ x) = Some i.
-Proof.
-  induction l as [|a l IH]; intros i H; [discriminate|]. cbn [find_crlf2] in H.
-  change ((a :: l) ++ x) with (a :: (l ++ x)). cbn [find_crlf2].
-  destruct (is_prefix CRLF2 (a :: l)) eqn:E.
-  - change (a :: l ++ x) with ((a :: l) ++ x). rewrite (is_prefix_app _ _ x E). exact H.
-  - destruct (find_crlf2 l) as [i'|] eqn:F; [|discriminate]. inversion H; subst i.
-    rewrite (IH i' eq_refl).
-    destruct (is_prefix CRLF2 (a :: l ++ x)) eqn:E2; [|reflexivity].
-    exfalso. (* a match at position 0 of the extension lies within the first i'+1+4 bytes of l *)
-    pose proof (find_crlf2_bound _ _ F) as Hb.
-    assert (E3 : is_prefix CRLF2 (firstn 4 ((a :: l) ++ x)) = true)
-      by (apply is_prefix_firstn_ge; [exact E2|cbn [CRLF2 length]; lia]).
-    rewrite firstn_app in E3. replace (4 - length (a :: l))%nat with 0%nat in E3 by (cbn [length]; lia).
-    rewrite firstn_O, app_nil_r in E3. apply is_prefix_firstn in E3. congruence.
-Qed.
-
-Lemma frame_req_extend msg m x :
-  frame_req msg = QComplete (length msg) m -> r_chunked m = false ->
-  frame_req (msg ++ x) = QComplete (length msg) m.
-Proof.
-  intros H Hc. unfold frame_req in H |- *.
-  destruct (find_crlf2 msg) as [i|] eqn:F; [|discriminate].
-  pose proof (find_crlf2_bound _ _ F) as Hb.
-  rewrite (find_crlf2_app _ x _ F).
-  rewrite firstn_app. replace (i - length msg)%nat with 0%nat by lia. cbn [firstn]. rewrite app_nil_r.
-  destruct (split_crlf (firstn i msg)) as [|l0 ls]; [discriminate|].
-  destruct (parse_reqline l0) as [[mt tg]|]; [|discriminate].
-  destruct (parse_headers ls) as [hs|]; [|discriminate].
-  destruct (body_kind_of hs (BKLen 0)) as [|n|]; [discriminate| |].
-  - destruct (N.to_nat n <=? length (skipn (i + 4) msg))%nat eqn:E; [|discriminate].
-    inversion H as [[Hn Hm]]. apply Nat.leb_le in E.
-    rewrite skipn_app. rewrite app_length.
-    destruct (N.to_nat n <=? length (skipn (i + 4) msg) + length (skipn (i + 4 - length msg) x))%nat eqn:E2.
-    + rewrite firstn_app. replace (N.to_nat n - length (skipn (i + 4) msg))%nat with 0%nat by lia.
-      cbn [firstn]. rewrite app_nil_r. reflexivity.
-    + apply Nat.leb_gt in E2. lia.
-  - destruct (dechunk _ _ _ _); try discriminate. inversion H as [[Hn Hm]]. subst m. cbn in Hc. discriminate.
-Qed.
-
-(* the first request of a write is served; the rest of that write never reaches the next
-   reader: the state after the exchange does not depend on it *)
-Lemma readahead_dropped msg m x rest s :
-  frame_req msg = QComplete (length msg) m -> r_chunked m = false -> s_buf s = [] ->
-  run (ISeg (msg ++ x) :: rest) s = on_complete m rest s.
-Proof.
-  intros H Hc Hb. rewrite run_seg, Hb. cbn [app]. rewrite (frame_req_extend _ _ x H Hc). reflexivity.
-Qed.
-
-Lemma readahead_dropped_eq msg m x rest s :
-  frame_req msg = QComplete (length msg) m -> r_chunked m = false -> s_buf s = [] ->
-  run (ISeg (msg ++ x) :: rest) s = run (ISeg msg :: rest) s.
-Proof.
-  intros H Hc Hb. rewrite (readahead_dropped msg m x rest s H Hc Hb).
-  pose proof (readahead_dropped msg m [] rest s H Hc Hb) as E. rewrite app_nil_r in E. rewrite E. reflexivity.
-Qed.
-
 (* ------------------------------------------------------------------ *)
 (* the header sort is stable: fields with the same name keep their order *)
 
